@@ -139,10 +139,17 @@ func cmdLoadHist(args []string) {
 	rep := vh.NewReport("schema", "loadhist")
 	eachHistory(*vp, func(hi int, h *History) {
 		root := newRootFor(hi, *intro)
+		bound := false // (reflection roots: the query root has been bound to the application's Top method)
+		reflRoot := *requests && hi%2 == 1
 		if *requests {
 			root = ggql.NewRoot(map[string]interface{}{})
 			root.AnyResolver = &echoAny{}
 			ggql.Sort = true
+			if reflRoot {
+				// an application whose query root is not called Query(): it is bound by RegisterType / RegisterField on the
+				// schema after the first accepted load; the loads that follow leave that binding alone
+				root = ggql.NewRoot(&topApp{})
+			}
 		}
 		key := ""
 		failedThenOK := false
@@ -256,6 +263,9 @@ func cmdLoadHist(args []string) {
 					}
 				}
 			}
+			if reflRoot && err == nil && !bound && root.VerifSchema() != nil && root.VerifSchema().GetField("query") != nil {
+				bound = bindTop(root)
+			}
 			if *requests && err == nil && len(diffs) == 0 {
 				answers := askAll(root) // (asked after every load: a root that is used between the loads must end the same)
 				if si == len(h.Hist)-1 && len(h.Hist) > 1 {
@@ -265,7 +275,13 @@ func cmdLoadHist(args []string) {
 					}
 					one := ggql.NewRoot(map[string]interface{}{})
 					one.AnyResolver = &echoAny{}
+					if reflRoot {
+						one = ggql.NewRoot(&topApp{})
+					}
 					if oerr := load(one, all); oerr == nil {
+						if reflRoot && bound {
+							bindTop(one)
+						}
 						ref := askAll(one)
 						rep.Class("requests")
 						if strings.Join(ref, "\n") != strings.Join(answers, "\n") {
@@ -633,8 +649,21 @@ func (a *echoAny) Nth(list interface{}, i int) (interface{}, error) {
 
 // requestSet derives requests from the query root type of the loaded schema: every String field with every argument
 // left out, and with `{}` / `[{}]` written for the arguments of input object / list of input object type.
+// topApp is an application object whose query root is reached through a method that is not called Query.
+type topApp struct{}
+type topQuery struct{}
+
+func (a *topApp) Top() *topQuery { return &topQuery{} }
+
+func bindTop(root *ggql.Root) bool {
+	if err := root.RegisterType(&topApp{}, "schema"); err != nil {
+		return false
+	}
+	return root.RegisterField("schema", "query", "Top") == nil
+}
+
 func requestSet(root *ggql.Root) []string {
-	var out []string
+	out := []string{"{ __typename }"}
 	sc := root.VerifSchema()
 	if sc == nil {
 		return nil
